@@ -67,7 +67,7 @@ GUARDED_ENS = [
      'same_answer(erased_rc(out), load_erased(%s, key, tag::<T>(), answer_chain(old(self).storage, key, tag::<T>(), %s)))' % (DOC, NOW)),
     # ... and if the recursion guard does not interfere with this load, that is what the uncached document answers NOW
     ('answers_as_uncached_now',
-     'guard_silent(%s, key, tag::<T>()) ==> same_answer(erased_rc(out), load_erased(%s, key, tag::<T>(), %s))' % (DOC, DOC, NOW)),
+     'guard_hypothesis(%s, key, tag::<T>()) ==> same_answer(erased_rc(out), load_erased(%s, key, tag::<T>(), %s))' % (DOC, DOC, NOW)),
 ]
 KEY = 'r.inner'
 PUSHED = 'old(self).chain@.push(%s)' % KEY
@@ -80,7 +80,7 @@ GET_ENS = [
      '!old(self).chain@.contains(%s) ==> same_answer(erased_rc(out), load_erased(%s, %s, tag::<T>(), answer_chain(old(self).storage, %s, tag::<T>(), %s)))'
      % (KEY, DOC, KEY, KEY, PUSHED)),
     ('answers_as_uncached_now',
-     '!old(self).chain@.contains(%s) && guard_silent(%s, %s, tag::<T>()) ==> same_answer(erased_rc(out), load_erased(%s, %s, tag::<T>(), %s))'
+     '!old(self).chain@.contains(%s) && guard_hypothesis(%s, %s, tag::<T>()) ==> same_answer(erased_rc(out), load_erased(%s, %s, tag::<T>(), %s))'
      % (KEY, DOC, KEY, DOC, KEY, PUSHED)),
 ]
 
@@ -118,6 +118,13 @@ UNIT = {
  'name': 'cachetransp',
  'doc': 'caches are invisible (sequential path): representation invariant "every cache entry equals the uncached computation for its key" kept and used by StorageResolver::get / get_data_or_decode',
  'timeout': 600,
+ 'deviations': {
+   'DEV_GUARD_REFUSAL_CACHED': 'a typed load that runs NESTED in other loads can be answered differently from the same load made from scratch '
+        '(the recursion guard refuses a reference back into the chain; a tolerant Option reader turns the refusal into "absent", or the refusal '
+        'depends on the type the outer object is read as). The object cache keeps the nested answer and serves it to later top-level calls; '
+        'the uncached document computes it from scratch. With the deviation ON, `answers_as_uncached_now` is claimed only for loads on which the '
+        'guard is silent (guard_silent); `answers_as_uncached_load` (unconditional) says exactly which load the answer is. See findings/guard_refusal_cached.md',
+ },
  'items': {
   'struct PlainRef': {'kind': 'decl', 'file': M, 'header': r'^pub struct PlainRef$', 'attrs': ['#[derive(Clone, Copy, PartialEq, Eq, Structural)]']},
   'enum Primitive': {'kind': 'decl', 'file': P, 'header': r'^pub enum Primitive$'},
